@@ -24,7 +24,7 @@ func init() {
 	Register(&Check{Prop: "C06", Run: runC06, Replay: func(c *Ctx, cs *Case) { evalC06(c, cs) }})
 }
 
-var c06Classes = []int{gen.ClassPlain, gen.ClassExt, gen.ClassUnicode, gen.ClassQuoting, gen.ClassBlankEdge, gen.ClassBullet}
+var c06Classes = []int{gen.ClassPlain, gen.ClassExt, gen.ClassUnicode, gen.ClassQuoting, gen.ClassBlankEdge, gen.ClassBullet, gen.ClassCase}
 
 func fsSafeForest(f model.Forest) {
 	var fix func(n *model.Node)
